@@ -16,8 +16,8 @@ FILES = {
     "AxisPosition.py": ["C03", "C04", "C08", "C09", "C01"],
     "Position.py": ["C03", "C04", "C08", "C10"],
     "GcodeParser.py": ["C18", "C19", "C20", "C07", "C09", "C06"],
-    "RectangularRegion.py": ["C17", "C12", "C01"],
-    "CircularRegion.py": ["C17", "C12", "C01"],
+    "RectangularRegion.py": ["C17", "C12", "C01", "C13"],
+    "CircularRegion.py": ["C17", "C12", "C01", "C13"],
     "StreamProcessor.py": ["C20"],
     "CommonMixin.py": ["C07", "C17"],
     "AtCommandAction.py": ["C14"],
